@@ -105,6 +105,7 @@ func matchFinding(fs []Finding, prop, clause string, rec map[string]interface{})
 // Candidate is a case with violated clauses of the property under check.
 type Candidate struct {
 	Case    Case
+	Group   []Case // all members of the case's comparison group in trace order (nil if none)
 	Arch    int
 	Clauses []string
 	Event   string
@@ -114,11 +115,22 @@ type Candidate struct {
 // known findings are named, everything else is re-executed from its replay
 // file and, if it is rejected again, reported as a VIOLATION (R1).
 func (c *Ctx) Report(viols []Viol, cases map[string]Case, module, cfg string) (violations int, err error) {
+	var order0 []string
+	for id := range cases {
+		order0 = append(order0, id)
+	}
+	sort.Slice(order0, func(i, j int) bool { return caseLess(order0[i], order0[j]) })
 	fs, err := loadFindings(c.Root)
 	if err != nil {
 		return 0, err
 	}
 	prefix := c.Prop + "."
+	groups := map[string][]Case{}
+	for _, id := range order0 {
+		if g, ok := cases[id].(grouped); ok && g.GroupKey() != "" {
+			groups[g.GroupKey()] = append(groups[g.GroupKey()], cases[id])
+		}
+	}
 	byCase := map[string]*Candidate{}
 	var order []string
 	other := map[string]int{}
@@ -135,6 +147,9 @@ func (c *Ctx) Report(viols []Viol, cases map[string]Case, module, cfg string) (v
 			cd := byCase[v.Case]
 			if cd == nil {
 				cd = &Candidate{Case: cs, Arch: cs.Header().Arch, Event: v.Event}
+				if g, ok := cs.(grouped); ok && g.GroupKey() != "" {
+					cd.Group = groups[g.GroupKey()]
+				}
 				byCase[v.Case] = cd
 				order = append(order, v.Case)
 			}
@@ -239,21 +254,38 @@ func violationRecord(cd *Candidate) map[string]interface{} {
 	var cm map[string]interface{}
 	json.Unmarshal(b, &cm)
 	rec["case"] = cm
+	if segs, ok := cm["segs"].([]interface{}); ok && len(segs) > 0 {
+		rec["last"] = segs[len(segs)-1] // the last segment of a reader case
+	}
 	var em map[string]interface{}
 	json.Unmarshal([]byte(cd.Event), &em)
 	rec["event"] = em
+	if em != nil && em["ev"] == "End" {
+		rest, _ := em["rest"].(float64)
+		want, _ := em["wantRest"].(float64)
+		switch {
+		case want < 0:
+		case rest < want && want-rest <= 4096:
+			rec["symptom"] = "overread<=4096"
+		case rest < want:
+			rec["symptom"] = "overread>4096"
+		case rest > want:
+			rec["symptom"] = "underread"
+		}
+	}
 	return rec
 }
 
 // Replay is the content of a replay file.
 type Replay struct {
-	Property string          `json:"property"`
-	Clauses  []string        `json:"clauses"`
-	Arch     int             `json:"arch"`
-	Module   string          `json:"module"`
-	Cfg      string          `json:"cfg"`
-	Case     json.RawMessage `json:"case"`
-	Event    json.RawMessage `json:"event,omitempty"`
+	Group    []json.RawMessage `json:"group,omitempty"` // the whole comparison group, in order, when the clause compares cases
+	Property string            `json:"property"`
+	Clauses  []string          `json:"clauses"`
+	Arch     int               `json:"arch"`
+	Module   string            `json:"module"`
+	Cfg      string            `json:"cfg"`
+	Case     json.RawMessage   `json:"case"`
+	Event    json.RawMessage   `json:"event,omitempty"`
 }
 
 func (c *Ctx) writeReplay(cd *Candidate) (string, error) {
@@ -262,6 +294,13 @@ func (c *Ctx) writeReplay(cd *Candidate) (string, error) {
 		return "", err
 	}
 	r := Replay{Property: c.Prop, Clauses: cd.Clauses, Arch: cd.Arch, Case: cb}
+	for _, g := range cd.Group {
+		gb, err := json.Marshal(g)
+		if err != nil {
+			return "", err
+		}
+		r.Group = append(r.Group, gb)
+	}
 	if json.Valid([]byte(cd.Event)) {
 		r.Event = json.RawMessage(cd.Event)
 	}
@@ -274,7 +313,11 @@ func (c *Ctx) writeReplay(cd *Candidate) (string, error) {
 
 // replayOnce re-executes one case and validates its trace again.
 func (c *Ctx) replayOnce(cd *Candidate, module, cfg string) (bool, []string, error) {
-	trace, err := c.Execute("replay-"+hashOf([]byte(cd.Case.Header().ID)), []Case{cd.Case}, false)
+	run := []Case{cd.Case}
+	if len(cd.Group) > 0 {
+		run = cd.Group
+	}
+	trace, err := c.Execute("replay-"+hashOf([]byte(cd.Case.Header().ID)), run, false)
 	if err != nil {
 		return false, nil, err
 	}
@@ -286,6 +329,9 @@ func (c *Ctx) replayOnce(cd *Candidate, module, cfg string) (bool, []string, err
 	prefix := c.Prop + "."
 	set := map[string]bool{}
 	for _, v := range viols {
+		if v.Case != cd.Case.Header().ID {
+			continue
+		}
 		for _, cl := range v.Clauses {
 			if strings.HasPrefix(cl, prefix) {
 				set[cl] = true
@@ -324,32 +370,80 @@ func (c *Ctx) regressCases() ([]Case, error) {
 		if err := json.Unmarshal(b, &r); err != nil {
 			return nil, fmt.Errorf("%s: %v", e.Name(), err)
 		}
+		base := "regress-" + strings.TrimSuffix(e.Name(), ".json")
+		arch := func(a int) int {
+			if a > c.Host {
+				return c.Host
+			}
+			return a
+		}
+		if len(r.Group) > 0 {
+			// a comparison group: all members, in order, under a group key of their own
+			for i, g := range r.Group {
+				gc, _, _, err := decodeCase(g)
+				if err != nil {
+					return nil, fmt.Errorf("%s: %v", e.Name(), err)
+				}
+				setCaseIdentity(gc, fmt.Sprintf("%s-%d", base, i), arch(gc.Header().Arch), base)
+				out = append(out, gc)
+			}
+			continue
+		}
 		cs, _, _, err := decodeCase(r.Case)
 		if err != nil {
 			return nil, fmt.Errorf("%s: %v", e.Name(), err)
 		}
-		h := cs.Header()
-		arch := r.Arch
-		if arch > c.Host {
-			arch = c.Host
-		}
-		setCaseIdentity(cs, "regress-"+strings.TrimSuffix(e.Name(), ".json"), arch)
-		_ = h
+		setCaseIdentity(cs, base, arch(r.Arch), "")
 		out = append(out, cs)
 	}
 	c.ev.Extra["regression_cases"] = len(out)
 	return out, nil
 }
 
-func setCaseIdentity(cs Case, id string, arch int) {
+func setCaseIdentity(cs Case, id string, arch int, group string) {
 	switch v := cs.(type) {
 	case *WCase:
 		v.ID, v.Arch = id, arch
 	default:
 		if f, ok := identitySetters[cs.Header().Family]; ok {
-			f(cs, id, arch)
+			f(cs, id, arch, group)
 		}
 	}
 }
 
-var identitySetters = map[string]func(Case, string, int){}
+var identitySetters = map[string]func(Case, string, int, string){}
+
+// grouped cases take part in a comparison with other cases.
+type grouped interface{ GroupKey() string }
+
+// caseLess orders case ids the way generators number them (numeric parts compare numerically).
+func caseLess(a, b string) bool {
+	na, nb := numParts(a), numParts(b)
+	for i := 0; i < len(na) && i < len(nb); i++ {
+		if na[i] != nb[i] {
+			return na[i] < nb[i]
+		}
+	}
+	if len(na) != len(nb) {
+		return len(na) < len(nb)
+	}
+	return a < b
+}
+
+func numParts(s string) []int {
+	var out []int
+	cur, in := 0, false
+	for _, r := range s {
+		if r >= '0' && r <= '9' {
+			cur = cur*10 + int(r-'0')
+			in = true
+		} else if in {
+			out = append(out, cur)
+			cur, in = 0, false
+		}
+	}
+	if in {
+		out = append(out, cur)
+	}
+	return out
+}
